@@ -58,9 +58,10 @@ SummaryClauses(gg, u, s) ==
 SummaryWant(gg, u) == IF u = {} THEN [npix |-> 0] ELSE Summary(gg, u)
 
 \* ---- shape-based constructors --------------------------------------------------------------------------------
-\* r.par = [kind, cy, cx, r, e1, e2] with the centre in the mask's own coordinates;  r.out / r.out_inv = ascending
+\* r.par = [kind, cy, cx, r, e1, e2] with the centre relative to the mask origin;  r.out / r.out_inv = ascending
 \* flattened indices of the unmasked pixels of the mask returned with invert False / True (<< -2 >> if the returned
-\* mask does not have the requested shape);  r.lab = pixel scales and origin of the returned mask;
+\* mask does not have the requested shape);  r.lab = pixel scales and origin of the returned mask;  r.out_o2 / r.lab2
+\* = the same call with the other origin r.o2 (the mask must be the same, the origin is carried to the result);
 \* r.has_s / r.s = the summaries of the returned mask (has_s is false for an entirely masked result)
 Method(kind) == CASE kind = "annular" -> "circular_annular"
                   [] kind = "anti_annular" -> "circular_anti_annular"
@@ -74,6 +75,9 @@ ClausesShape(r) ==
          IN << Cl("unmasked-set-is-the-documented-shape", Ascending(r.out) /\ ToSet(r.out) = want),
                Cl("invert-is-the-exact-complement", Ascending(r.out_inv) /\ ToSet(r.out_inv) = AllLin(gg) \ ToSet(r.out)),
                Cl("pixel-scales-and-origin-of-the-result", r.lab = << gg.sy, gg.sx, gg.oy, gg.ox >>),
+               Cl("mask-is-independent-of-origin",
+                  /\ Len(r.o2) = 2 /\ Pair(r.o2) # << gg.oy, gg.ox >>
+                  /\ r.out_o2 = r.out /\ r.lab2 = << gg.sy, gg.sx, r.o2[1], r.o2[2] >>),
                Cl("circular-mask-reports-itself",
                   (CircPremise(gg, r.par) /\ ToSet(r.out) = want /\ r.has_s)
                      => (r.s.circ = 1 /\ RadiusWithinOnePixel(gg, r.par, r.s.rad))) >>
@@ -145,7 +149,7 @@ ClausesUtil(r) ==
            [] r.api = "centres" ->
                 << Cl("offlattice", r.off = 0),
                    Cl("pixel-space-centre",
-                      Len(r.val2) = 2 /\ Pair(r.val2) = PixCentre2(NoOrigin(gg), [cy |-> r.cy, cx |-> r.cx])) >>
+                      Len(r.val2) = 2 /\ Pair(r.val2) = PixCentre2(gg, [cy |-> r.cy, cx |-> r.cx])) >>
            [] r.api = "rescale" ->
                 IF ~ (LinOk(r.u, gg) /\ r.num >= 1 /\ r.den >= 1 /\ (r.num = 1 \/ r.den = 1)
                       /\ gg.h % r.den = 0 /\ gg.w % r.den = 0)
@@ -185,12 +189,7 @@ FailedNames(r) == LET f == Failed(r) IN { f[k].n : k \in DOMAIN f }
 Sig(r) ==
     IF r.raised # "" THEN r.api \o ":raised" ELSE
     CASE r.api = "shape" ->
-           LET gg == GeoOf(r) IN
-           IF /\ ShapeInputOk(r) /\ (gg.oy # 0 \/ gg.ox # 0)
-              /\ FailedNames(r) = { "unmasked-set-is-the-documented-shape" }
-              /\ ToSet(r.out) = SetLin(OriginIgnoredSet(gg, r.par), gg)
-           THEN "Mask2D." \o Method(r.par.kind) \o ":origin-ignored"
-           ELSE "Mask2D." \o (IF ShapeInputOk(r) THEN Method(r.par.kind) ELSE "shape")
+           "Mask2D." \o (IF ShapeInputOk(r) THEN Method(r.par.kind) ELSE "shape")
       [] r.api = "pix" -> "Mask2D.from_pixel_coordinates"
       [] r.api = "hist" ->
            IF /\ HistInputOk(r)
